@@ -73,7 +73,9 @@ func (c20) Generate(r *core.Rng, run int, tier string) *core.History {
 		n := 3 + r.Intn(6)
 		for i := 0; i < n; i++ {
 			if r.Bool(.2) {
-				bg.AddAny([]string{core.Pick(r, []string{`zz9 = 1 / (1 - 1)`, `error("nope")`, `(x => self(x + 1))(0)`, `undefined_name_q + 1`, `qq1 = 5; error("after binding")`})})
+				bg.AddAny([]string{core.Pick(r, []string{`zz9 = 1 / (1 - 1)`, `error("nope")`, `(x => self(x + 1))(0)`, `undefined_name_q + 1`, `qq1 = 5; error("after binding")`,
+					// rejected top-level bindings (an extension function's name, a constant bound to another kind): nothing may be recorded
+					`pow = 3`, `len = func() { 1 }`, `LIMQ9 = 10`, `LIMQ9 = func() { 1 }`, `LIMQ9 = 10; LIMQ9 = 11`})})
 				continue
 			}
 			bg.Add(1 + r.Intn(3))
